@@ -97,6 +97,10 @@ func genC09(c *Ctx) {
 	stateful := len(pool)
 	addItem("pgp", "k.asc", armoredPGPKey(c.R, true))
 	addItem("jwt", "t.jwt", jwtWith(map[string]any{"sub": "x", "exp": "1700000000"}, map[string]any{"alg": "HS256"}))
+	addItem("jwt", "a.jwt", jwtWith(map[string]any{"sub": "a", "iss": "issuer-a", "aud": "aud-a", "jti": "a-0001", "nbf": 1700000000, "iat": 1700000000},
+		map[string]any{"alg": "RS256", "kid": "signing-key-2023", "typ": "JWT", "x5t": "thumb"}))
+	addItem("jwt", "b.jwt", jwtWith(map[string]any{"sub": "b"}, map[string]any{"alg": "none"}))
+	addItem("jwt", "null.jwt", []byte("bnVsbA.bnVsbA."))
 	addItem("uuid", "u.txt", []byte("1EC9414C-232A-6B00-B3C8-9E6BDECED846\n"))
 	addItem("junk", "junk.bin", []byte("not a key at all\n"))
 	addItem("empty", "empty", nil)
